@@ -6,7 +6,7 @@
    to [s]; old = false is the code as it is, old = true the code before commit a1fd190. *)
 From Coq Require Import List Arith Bool.
 Import ListNotations.
-From V Require Import model.Sse proofs.SseProof.
+From V Require Import model.Sse model.SseTransport spec.Browser proofs.SseProof proofs.SseTransportProof.
 
 (* No schedule makes a goroutine panic: no send on a closed channel (Deliver), no second close
    of a channel (Exit).  A panic in any goroutine would end the watch process. *)
@@ -230,4 +230,98 @@ Example C19_ex_monitor : exists s,
   /\ quiescentb s = true.
 Proof. eexists. split; [vm_compute; reflexivity | reflexivity]. Qed.
 Example C19_ex_monitor_rejects : monitor init 0 [OSub 1; OWrite 1 0; ORelease 1 true; OWrite 1 5] = inr 3.
+Proof. vm_compute. reflexivity. Qed.
+
+(* ---- the broadcast as the BROWSER experiences it: the handler behind the server it is served from ----
+   model/SseTransport.v puts the handler behind an HTTP server with a clock.  What the delivery
+   theorems above leave to the environment ("a blocked write eventually returns, with or without an
+   error") is settled there by the transport: a write to a browser that is still there fails only if
+   the connection has a write deadline ([wdl], http.Server.WriteTimeout; net/http arms it once, when
+   the request headers are read) and that deadline has passed.  [left ts c] says the browser itself
+   closed the stream; [bgot ts c] is what the browser has read.
+
+   Without a write deadline (http.ListenAndServe, what StartProxy uses - the harness checks it by a
+   static scan and, end to end, by observed delivery to connections of every age): the server side
+   never ends the stream of a browser that has not left - its handler stays in its loop, registered,
+   its context alive - whatever the clock says ... *)
+Theorem C19_transport_keeps_browser : forall cfg ts c, wdl cfg = None -> treachable cfg ts ->
+  left ts c = false -> cpc (cl (base ts) c) <> PNone ->
+  (cpc (cl (base ts) c) = PLoop \/ cpc (cl (base ts) c) = PBusy) /\
+  cancelled (cl (base ts) c) = false /\ In c (registered (base ts)).
+Proof. exact transport_keeps_browser. Qed.
+Print Assumptions C19_transport_keeps_browser.
+
+(* ... and once nothing is in flight, every browser that has not left and is not in the middle of a
+   write HAS READ every reload whose Send iterated a registry holding it. *)
+Theorem C19_transport_browser_has_every_event : forall cfg ts, wdl cfg = None -> treachable cfg ts ->
+  pending (base ts) = [] -> holder (base ts) = None ->
+  forall e snap c, In (e, snap) (log (base ts)) -> In c snap ->
+    left ts c = false -> cpc (cl (base ts) c) <> PBusy -> In e (bgot ts c).
+Proof. exact transport_browser_has_every_event. Qed.
+Print Assumptions C19_transport_browser_has_every_event.
+
+(* With a write deadline d the property is false, for every d: once a connection is d ticks old
+   ([past_deadline]) it stays so and its browser never reads anything again, whatever happens - every
+   later reload is lost for it although it never left. *)
+Theorem C19_write_deadline_starves_old_connections : forall cfg d, wdl cfg = Some d ->
+  forall tr ts ts' c, texec cfg ts tr = Some ts' -> past_deadline d ts c ->
+    past_deadline d ts' c /\ bgot ts' c = bgot ts c.
+Proof. exact transport_deadline_starves. Qed.
+Print Assumptions C19_write_deadline_starves_old_connections.
+
+(* the seeded situation as a schedule of the model (write deadline 10 ticks): the browser never left, the
+   Send iterated a registry that held it, nothing is in flight, and it has not read the event *)
+Lemma C19_write_deadline_refuted : exists ts,
+  texec {| wdl := Some 10 |} tinit deadline_trace = Some ts /\
+  left ts 1 = false /\ log (base ts) = [(1, [1])] /\ quiescentb (base ts) = true /\ cpc (cl (base ts) 1) = PGone /\
+  bgot ts 1 = [] /\ unserved ts = [(1, 1)].
+Proof. exact deadline_loses_event. Qed.
+Example C19_ex_no_deadline_delivers : exists ts,
+  texec {| wdl := None |} tinit [Act Subscribe; Act (Tick 1); Act (WriteOK 1); Advance 10; Act SendCall; Act (SendLock 1); Act SendSpawn;
+                                 Act SendUnlock; Act (Deliver 1 1); Act (WriteOK 1)] = Some ts /\
+  bgot ts 1 = [1] /\ unserved ts = [] /\ cpc (cl (base ts) 1) = PLoop.
+Proof. exact no_deadline_delivers. Qed.
+
+(* every timed execution is an execution of the handler model, so everything proved above about
+   [reachable false] states applies to [base ts] *)
+Lemma C19_transport_refines_handler : forall cfg ts, treachable cfg ts -> reachable false (base ts).
+Proof. exact treachable_base. Qed.
+
+(* The end-to-end acceptor: a browser-side history (what real HTTP clients of the proxy started by
+   StartProxy saw, rendered as timed observations) that [tmonitor] accepts for a transport without
+   write deadline is a timed execution; if it ends with nothing in flight and no write in progress,
+   [unserved] - the (browser, event) pairs of browsers that have not left and have not read an event
+   whose Send iterated a registry holding them - is empty.  A stream the server side ended for a
+   browser that had not left is not accepted: no step of the model produces it. *)
+Theorem C19_transport_accepted_served : forall cfg h ts, wdl cfg = None -> tmonitor cfg tinit 0 h = inl ts ->
+  treachable cfg ts /\
+  (quiescentb (base ts) = true -> (forall c, left ts c = false -> cpc (cl (base ts) c) <> PBusy) -> unserved ts = []).
+Proof. exact transport_accepted_served. Qed.
+Print Assumptions C19_transport_accepted_served.
+Example C19_ex_tmonitor_rejects_cut :
+  tmonitor {| wdl := None |} tinit 0 [TO (OSub 1); TO (OWrite 1 0); TO (ORelease 1 true); TAdv 100; TO (OWrite 1 0); TO (ORelease 1 false)] = inr 5.
+Proof. vm_compute. reflexivity. Qed.
+
+(* The specification the end-to-end histories are judged by (spec/Browser.v, written without reference
+   to the model): a history of browsers opening their stream, leaving by themselves, reloads being
+   broadcast, browsers reading events, streams being cut by the server side; [owed] is what is
+   outstanding after it - a cut discharges nothing.  [tview] is what the browsers see of a timed
+   execution.  Behind a server without write deadline every execution that ends with nothing in
+   flight and no write in progress shows the browsers a history that satisfies the specification:
+   every browser present when a reload was broadcast, and that has not left since, has read it. *)
+Theorem C19_transport_satisfies_browser_spec : forall cfg tr ts, wdl cfg = None -> texec cfg tinit tr = Some ts ->
+  quiescentb (base ts) = true -> (forall c, left ts c = false -> cpc (cl (base ts) c) <> PBusy) ->
+  browsers_served (tview cfg tinit tr).
+Proof. exact transport_satisfies_browser_spec. Qed.
+Print Assumptions C19_transport_satisfies_browser_spec.
+(* ... and with a write deadline the seeded schedule shows them one that violates it *)
+Lemma C19_write_deadline_view_violates_spec :
+  tview {| wdl := Some 10 |} tinit deadline_trace = [BOpen 1; BBroadcast 1; BCut 1] /\
+  owed (brun (tview {| wdl := Some 10 |} tinit deadline_trace)) = [(1, 1)].
+Proof. exact deadline_view_violates_spec. Qed.
+Example C19_ex_browser_spec_served :
+  owed (brun [BOpen 1; BOpen 2; BBroadcast 1; BRecv 2 1; BRecv 1 1; BLeave 2; BBroadcast 2; BRecv 1 2]) = [].
+Proof. vm_compute. reflexivity. Qed.
+Example C19_ex_browser_spec_cut :
+  owed (brun [BOpen 1; BOpen 2; BBroadcast 1; BRecv 2 1; BRecv 1 1; BCut 1; BBroadcast 2; BRecv 2 2]) = [(1, 2)].
 Proof. vm_compute. reflexivity. Qed.
